@@ -232,6 +232,7 @@ class C04:
         # the site of a container session names its ROLE, not its class (a rename must not change a verdict)
         mon.site_of[id(obj)] = ("matcher" if case["kind"] == "matcher" else
                                 "search+initial_bounds" if case.get("init") is not None else "search")
+        mon.default_site = mon.site_of[id(obj)]   # helper objects the container creates belong to the same role
         self._container_obj = obj
         for step, (oi, arg) in enumerate(case["schedule"]):
             op = ops[oi % len(ops)]
